@@ -207,7 +207,7 @@ def gen_history(rng, idx, base, opts):
                 p = rng.choice(a["prods"])
                 b["prods"] = b["prods"] + [p]
                 if kind == "dup_spell":
-                    b["spell"] = {str(p): rng.choice(["dot", "updown"])}
+                    b["spell"] = {str(p): rng.choice(["dot", "updown", "node_updown"])}
             elif kind == "cycle" and with_prod:
                 a = rng.choice(with_prod)
                 up = closure(declared_upstream(btasks))
